@@ -2,18 +2,36 @@
 
 Tie: (a) translator: phases + context-method skeletons are regenerated from engine.py/lifecycle.py and
 the theorems of Props/C06.lean are re-proved about them; (b) correspondence: random sequences of
-context calls and direct state requests on a real SimulationContext, and random lifecycle definitions
-on a bare LifeCycleManager, against Driver/C06.lean (outcome class, state after, listener log, clock).
+context calls and direct state requests on a real SimulationContext / InteractiveContext (every call form and
+entry point: run, run(backup…), run_simulation, step(x), take_steps, run_until, run_for, requests made from
+INSIDE a listener), and random lifecycle definitions on a LifeCycleManager (bare, or the one inside a real
+context; phases added at any moment; every container / name kind), against Driver/C06.lean
+(outcome class, state after, listener log, clock).
+
+Case formats (all JSON):
+  {"kind": "ctx", "start", "stop", "step", "ops": [...], "interactive"?, "auto_setup"?, "pop"?, "prior"?: {ctx case}}
+     ops: call:<m> | callp:report | calld:report | run | runb | runsim | set:<s> | setk:<s> | fail:<event> |
+          nest:<event>:set:<s> | nest:<event>:call:<m> | xstep:<n> | xstepk:<n> | take:<n> | takek:<n> | until:<t> | for:<d>
+  {"kind": "lc", "phases": [[name, states, loop], ...], "reqs": [...]}                      (first-round format)
+  {"kind": "lc", "base": "bare"|"engine", "lcops": [["phase", name, states, loop, form, container] | ["set", name, form]],
+   "prior"?: {lc case}}
 """
 from __future__ import annotations
 
 import random
+import re
+import shutil
+import tempfile
 
 from .. import impl
-from ..runner import Prop
+from ..runner import CaseTimeout, Prop
 
 ENGINE_STATES = ["initialization", "setup", "post_setup", "population_creation", "time_step__prepare", "time_step",
                  "time_step__cleanup", "collect_metrics", "simulation_end", "report"]
+ENGINE_PHASES = [["setup", ["setup", "post_setup", "population_creation"], False],
+                 ["main_loop", ["time_step__prepare", "time_step", "time_step__cleanup", "collect_metrics"], True],
+                 ["simulation_end", ["simulation_end", "report"], False]]
+STEP_EVENTS = ENGINE_STATES[4:8]
 METHODS = ["setup", "initialize_simulants", "step", "finalize", "report"]
 LEGAL_NEXT = {  # the order the property states (oracle, independent of the model)
     "initialization": ["setup"], "setup": ["post_setup"], "post_setup": ["population_creation"],
@@ -21,9 +39,45 @@ LEGAL_NEXT = {  # the order the property states (oracle, independent of the mode
     "time_step": ["time_step__cleanup"], "time_step__cleanup": ["collect_metrics"],
     "collect_metrics": ["time_step__prepare", "simulation_end"], "simulation_end": ["report"], "report": [],
 }
+FIRST_SET = {"setup": "setup", "initialize_simulants": "population_creation", "step": "time_step__prepare",
+             "finalize": "simulation_end", "report": "report"}
+REST = {"setup": "post_setup", "initialize_simulants": "population_creation", "step": "collect_metrics",
+        "finalize": "simulation_end", "report": "report"}
+EVENTS_OF = {"setup": ["setup_components", "emit:post_setup"], "initialize_simulants": ["create"],
+             "step": ["emit:" + e for e in STEP_EVENTS], "finalize": ["emit:simulation_end"], "report": ["emit:report"]}
 
 
-def _mk_context(case, log, fail):
+def _reach():
+    out = {}
+    for s in LEGAL_NEXT:
+        seen, todo = {s}, [s]
+        while todo:
+            for n in LEGAL_NEXT[todo.pop()]:
+                if n not in seen:
+                    seen.add(n)
+                    todo.append(n)
+        out[s] = seen
+    return out
+
+
+REACH = _reach()      # reflexive-transitive closure of the legal order
+STEPPING = ("run", "runb", "xstep", "xstepk", "take", "takek", "until", "for")
+SAFE = re.compile(r"^[A-Za-z0-9_.:]+$")
+
+
+def _kind(op: str) -> str:
+    return op.split(":")[0]
+
+
+def _method_of(op: str):
+    """the context method behind a call op (None for everything else)"""
+    k = _kind(op)
+    if k in ("call", "callp", "calld"):
+        return op.split(":", 1)[1]
+    return None
+
+
+def _mk_context(cfg, log, fail, nest, trail):
     impl.load()
     from vivarium import Component
     from vivarium.framework.engine import SimulationContext
@@ -37,53 +91,233 @@ def _mk_context(case, log, fail):
             raise ListenerFailure(event)
 
     class Probe(Component):
+        sim = None
+        state_of = None      # builder.lifecycle.current_state(): the handle a component gets
+
         @property
         def name(self):
             return "probe"
 
+        def _at(self, entry, want):
+            """log entry for a listener call; the lifecycle state the listener SEES is noted when it is not its own"""
+            seen = self.state_of()
+            trail.append(seen)
+            return entry if seen == want else f"{entry}@{seen}"
+
         def setup(self, builder):
-            log.append("setup_components")
-            builder.event.register_listener("report", lambda e: log.append("emit:report"))
+            self.state_of = builder.lifecycle.current_state()
+            entry = self._at("setup_components", "setup")
+            maybe_fail("setup_components")
+            log.append(entry)
+            builder.event.register_listener("report", self._on_report)
+
+        def _ev(self, ev):
+            entry = self._at("emit:" + ev, ev)
+            maybe_fail(ev)
+            log.append(entry)
+            if nest.get("ev") == ev:          # a request made from INSIDE the listener; a refusal is swallowed
+                req, nest["ev"] = nest["req"], None
+                try:
+                    _request(self.sim, req, cfg)
+                    ok = True
+                except CaseTimeout:
+                    raise
+                except Exception:  # noqa: BLE001
+                    ok = False
+                log.append(("nested:ok:" if ok else "nested:err:") + self.sim._lifecycle.current_state)
+
+        def _on_report(self, e):
+            self._ev("report")
 
         def on_post_setup(self, e):
-            maybe_fail("post_setup")
-            log.append("emit:post_setup")
+            self._ev("post_setup")
 
         def on_initialize_simulants(self, d):
-            log.append("create")
+            entry = self._at("create", "population_creation")
+            maybe_fail("create")
+            log.append(entry)
 
         def on_time_step_prepare(self, e):
-            maybe_fail("time_step__prepare")
-            log.append("emit:time_step__prepare")
+            self._ev("time_step__prepare")
 
         def on_time_step(self, e):
-            maybe_fail("time_step")
-            log.append("emit:time_step")
+            self._ev("time_step")
 
         def on_time_step_cleanup(self, e):
-            maybe_fail("time_step__cleanup")
-            log.append("emit:time_step__cleanup")
+            self._ev("time_step__cleanup")
 
         def on_collect_metrics(self, e):
-            maybe_fail("collect_metrics")
-            log.append("emit:collect_metrics")
+            self._ev("collect_metrics")
 
         def on_simulation_end(self, e):
-            maybe_fail("simulation_end")
-            log.append("emit:simulation_end")
+            self._ev("simulation_end")
 
     SimulationContext._clear_context_cache()
     plugins = {"required": {"clock": {"controller": "vivarium.framework.time.SimpleClock",
                                       "builder_interface": "vivarium.framework.time.TimeInterface"}}}
+    kw = {}
     cls = SimulationContext
-    if case.get("interactive"):
+    if cfg.get("interactive"):
         from vivarium.interface.interactive import InteractiveContext
-        cls = lambda **kw: InteractiveContext(setup=False, **kw)      # noqa: E731
-    return cls(
-        components=[Probe()],
-        configuration={"population": {"population_size": case.get("pop", 2)},
-                       "time": {"start": case["start"], "end": case["stop"], "step_size": case["step"]}},
-        plugin_configuration=plugins, logging_verbosity=0)
+        cls = InteractiveContext
+        kw["setup"] = bool(cfg.get("auto_setup"))
+    probe = Probe()
+    sim = cls.__new__(cls)
+    probe.sim = sim      # the constructor of an InteractiveContext may itself run setup(): the probe knows its context before that
+    sim.__init__(
+        components=[probe],
+        configuration={"population": {"population_size": cfg.get("pop", 2)},
+                       "time": {"start": cfg["start"], "end": cfg["stop"], "step_size": cfg["step"]}},
+        plugin_configuration=plugins, logging_verbosity=0, **kw)
+    return sim, probe
+
+
+def _request(sim, op, cfg, tmp=None):
+    """perform one request on the real context (exceptions propagate)"""
+    k = _kind(op)
+    arg = op.split(":", 1)[1] if ":" in op else None
+    inter = bool(cfg.get("interactive"))
+    if k == "run":
+        sim.run(with_logging=False) if inter else sim.run()
+    elif k == "runb":          # the second copy of the loop (backup branch) / the positional form
+        if inter:
+            sim.run(False)
+        else:
+            import pathlib
+            sim.run(backup_path=pathlib.Path(tmp or tempfile.gettempdir()) / "c06-backup.pkl", backup_freq=1e9)
+    elif k == "runsim":
+        sim.run_simulation()
+    elif k == "call":
+        getattr(sim, arg)(**({"print_results": False} if arg == "report" else {}))
+    elif k == "callp":
+        sim.report(False)
+    elif k == "calld":
+        sim.report()
+    elif k == "set":
+        sim._lifecycle.set_state(arg)
+    elif k == "setk":
+        sim._lifecycle.set_state(state=arg)
+    elif k == "xstep":
+        sim.step(int(arg))
+    elif k == "xstepk":
+        sim.step(step_size=int(arg))
+    elif k == "take":
+        sim.take_steps(int(arg), with_logging=False)
+    elif k == "takek":
+        sim.take_steps(number_of_steps=int(arg), step_size=None, with_logging=False)
+    elif k == "until":
+        sim.run_until(int(arg), with_logging=False)
+    elif k == "for":
+        sim.run_for(duration=int(arg), with_logging=False)
+    else:
+        raise ValueError("unknown op " + op)
+
+
+def _run_ctx(cfg, keep):
+    log, fail, nest, trail = [], {"on": None}, {"ev": None, "req": None}, []
+    tmp = tempfile.mkdtemp(prefix="c06-")
+    try:
+        sim, probe = _mk_context(cfg, log, fail, nest, trail)
+        keep.append(sim)
+        out = {"ops": []}
+
+        def snap(outcome, before, tbefore=0):
+            clock = sim._clock._clock_time
+            try:
+                seen = probe.state_of() if probe.state_of is not None else None
+            except Exception as e:  # noqa: BLE001
+                seen = "raised:" + type(e).__name__
+            return [outcome, sim._lifecycle.current_state, None if clock is None else int(clock), log[before:], seen, trail[tbefore:]]
+
+        if cfg.get("auto_setup"):
+            out["auto"] = snap("ok", 0)
+        for op in cfg["ops"]:
+            before, tbefore = len(log), len(trail)
+            try:
+                if op.startswith("fail:"):
+                    fail["on"] = op[5:]        # the probe's listener of that event raises at its next emission
+                elif op.startswith("nest:"):
+                    _, ev, req = op.split(":", 2)
+                    nest["ev"], nest["req"] = ev, req
+                else:
+                    _request(sim, op, cfg, tmp)
+                outcome = "ok"
+            except CaseTimeout:
+                raise
+            except Exception as e:  # noqa: BLE001
+                outcome = "err:" + type(e).__name__
+            out["ops"].append(snap(outcome, before, tbefore))
+        return out
+    finally:
+        shutil.rmtree(tmp, ignore_errors=True)
+
+
+# ---------------------------------------------------------------------------------------------- lc helpers
+def _lc_ops(case):
+    """unified op list of an lc case (either format)"""
+    if "lcops" in case:
+        return case["lcops"]
+    return [["phase", n, ss, l, "pos", "list"] for n, ss, l in case["phases"]] + [["set", r, "pos"] for r in case["reqs"]]
+
+
+def _container(states, kind):
+    if kind == "tuple":
+        return tuple(states)
+    if kind == "ndarray":
+        import numpy as np
+        return np.array(states, dtype=object)
+    if kind == "index":
+        import pandas as pd
+        return pd.Index(states, dtype=object)
+    return list(states)
+
+
+def _loopflag(loop, form):
+    if form == "int":
+        return 1 if loop else 0
+    if form == "npbool":
+        import numpy as np
+        return np.bool_(bool(loop))
+    return bool(loop)
+
+
+def _run_lc(case, keep):
+    impl.load()
+    from vivarium.framework.lifecycle import LifeCycleManager
+    if case.get("base") == "engine":
+        from vivarium.framework.engine import SimulationContext
+        SimulationContext._clear_context_cache()
+        ctx = SimulationContext(components=[], configuration={"population": {"population_size": 1}}, logging_verbosity=0)
+        keep.append(ctx)
+        m = ctx._plugin_manager.get_plugin("lifecycle")      # the manager as the plugin system hands it out
+    else:
+        m = LifeCycleManager()
+    keep.append(m)
+    out = []
+    for op in _lc_ops(case):
+        try:
+            if op[0] == "phase":
+                _, name, states, loop, form, cont = op
+                ss = _container(states, cont)
+                if form == "kw":
+                    m.add_phase(phase_name=name, states=ss, loop=_loopflag(loop, "bool"))
+                elif form == "default" and not loop:
+                    m.add_phase(name, ss)
+                elif form in ("int", "npbool"):
+                    m.add_phase(name, ss, _loopflag(loop, form))
+                elif form == "lifecycle":      # one level down: the LifeCycle object the manager owns
+                    m.lifecycle.add_phase(name, ss, bool(loop))
+                else:
+                    m.add_phase(name, ss, loop=bool(loop))
+            else:
+                m.set_state(state=op[1]) if op[2] == "kw" else m.set_state(op[1])
+            o = "ok"
+        except CaseTimeout:
+            raise
+        except Exception as e:  # noqa: BLE001
+            o = "err:" + type(e).__name__
+        out.append([o, m.current_state])
+    return {"lc": out}
 
 
 class C06(Prop):
@@ -91,230 +325,523 @@ class C06(Prop):
     lean_modules = ["VivModel.Props.C06"]
     build_targets = ["VivModel.Model.Context", "VivModel.Model.Proto"]
     driver = "C06"
-    technique = "Lean 4 proof (induction over request lists; decide over tables regenerated from engine.py) + differential correspondence with the real SimulationContext / LifeCycleManager"
-    n_quick = 160
+    technique = "Lean 4 proof (induction over request lists and action lists; decide over tables regenerated from engine.py) + differential correspondence with the real SimulationContext / InteractiveContext / LifeCycleManager"
+    n_quick = 230
     n_thorough = 3000
-    rule = ("cases = random sequences of context-method calls / direct set_state requests on a real SimulationContext, "
-            "and random phase definitions + request lists on a bare LifeCycleManager; distinct by case hash; "
+    workers = 4
+    case_timeout = 30            # a case takes milliseconds; only runaway loops (a `run` that no longer advances) get here
+    rule = ("cases = random sequences of context-method calls (every call form and entry point), direct set_state requests and requests "
+            "made from inside listeners on a real SimulationContext / InteractiveContext, and random phase definitions (added at any "
+            "moment, every container and name kind) + request lists on a LifeCycleManager (bare or inside a context), optionally after "
+            "an earlier, differently configured simulation / lifecycle in the same process; distinct by case hash; "
             "non-trivial = at least one accepted and one refused request")
 
     # ------------------------------------------------------------------ generation
     def boundary(self):
         legal = ["call:setup", "call:initialize_simulants", "call:step", "call:step", "call:finalize", "call:report"]
-        out = [{"kind": "ctx", "start": 0, "stop": 2, "step": 1, "ops": legal},
+        base = {"kind": "ctx", "start": 0, "stop": 2, "step": 1}
+        out = [dict(base, ops=legal),
                {"kind": "ctx", "start": 0, "stop": 3, "step": 1,
                 "ops": ["call:setup", "call:initialize_simulants", "run", "call:finalize", "call:report", "run"]}]
         # every method and every direct request from every resting state
         prefix = []
         for nxt in legal:
             for m in METHODS:
-                out.append({"kind": "ctx", "start": 0, "stop": 2, "step": 1, "ops": prefix + ["call:" + m] + legal[len(prefix):]})
-            out.append({"kind": "ctx", "start": 0, "stop": 2, "step": 1,
-                        "ops": prefix + ["set:" + s for s in ENGINE_STATES if s not in LEGAL_NEXT_AFTER(prefix)] + legal[len(prefix):]})
+                out.append(dict(base, ops=prefix + ["call:" + m] + legal[len(prefix):]))
+            out.append(dict(base, ops=prefix + ["set:" + s for s in ENGINE_STATES if s not in LEGAL_NEXT_AFTER(prefix)] + legal[len(prefix):]))
+            # … and every other entry point / call form from the same resting state
+            out.append(dict(base, ops=prefix + ["runsim", "runb", "callp:report", "calld:report", "setk:nonexistent"] + legal[len(prefix):]))
             prefix = prefix + [nxt]
         ilegal = ["call:setup", "call:step", "call:step", "call:finalize", "call:report"]
-        out.append({"kind": "ctx", "start": 0, "stop": 2, "step": 1, "ops": ilegal, "interactive": True})
+        ibase = dict(base, interactive=True)
+        out.append(dict(ibase, ops=ilegal))
         # every method, `run` and every direct request from every resting state of an INTERACTIVE context
         iprefix = []
         for nxt in ilegal:
             for m in METHODS:
-                out.append({"kind": "ctx", "start": 0, "stop": 2, "step": 1, "interactive": True,
-                            "ops": iprefix + ["call:" + m] + ilegal[len(iprefix):]})
-            out.append({"kind": "ctx", "start": 0, "stop": 2, "step": 1, "interactive": True,
-                        "ops": iprefix + ["set:" + s for s in ENGINE_STATES[:3] + ENGINE_STATES[5:8]] + ["run"] + ilegal[len(iprefix):]})
+                out.append(dict(ibase, ops=iprefix + ["call:" + m] + ilegal[len(iprefix):]))
+            out.append(dict(ibase, ops=iprefix + ["set:" + s for s in ENGINE_STATES[:3] + ENGINE_STATES[5:8]] + ["run"] + ilegal[len(iprefix):]))
+            # the interactive drives and forms; in a state where stepping is legal they step (the stop time is far enough)
+            out.append(dict(ibase, stop=9, ops=iprefix + ["xstep:2", "takek:1", "take:0", "until:0", "for:1", "runsim", "calld:report"]
+                            + [o for o in ilegal[len(iprefix):] if o != "call:step"]))
             iprefix = iprefix + [nxt]
         out.append({"kind": "ctx", "start": 0, "stop": 3, "step": 1, "interactive": True,
                     "ops": ["call:step", "call:setup", "call:initialize_simulants", "call:setup", "run", "run", "call:finalize", "call:step", "call:report"]})
         out.append({"kind": "lc", "phases": [["e", [], True], ["a", ["x"], True], ["b", [], False], ["c", ["y", "z"], False]],
                     "reqs": ["x", "x", "y", "z", "x"]})
-        for ev in ENGINE_STATES[4:8]:
+        for ev in STEP_EVENTS:
             pre = ["call:setup", "call:initialize_simulants", "call:step", "fail:" + ev, "call:step"]
             out.append({"kind": "ctx", "start": 0, "stop": 5, "step": 1,
                         "ops": pre + ["call:" + m for m in METHODS] + ["run"] + ["set:" + s for s in ENGINE_STATES]})
         out.append({"kind": "lc", "phases": [["a", ["x", "y"], True], ["b", ["z"], False]],
                     "reqs": ["x", "y", "x", "z", "y", "z", "x", "nowhere"]})
+        # --- LESSONS audit -------------------------------------------------------------------------------------
+        # the constructor of an InteractiveContext sets up by default; then everything from population_creation
+        out.append(dict(ibase, auto_setup=True, ops=["call:setup", "call:initialize_simulants", "call:step", "call:finalize", "call:report"]))
+        out.append(dict(ibase, auto_setup=True, stop=6, ops=["runsim", "xstepk:2", "take:2", "until:5", "for:1", "run", "call:finalize", "calld:report"]))
+        # run_simulation: the whole wrapper, twice; with nothing to do (end == start) it stops at finalize
+        out.append(dict(base, ops=["runsim", "runsim", "call:step"]))
+        out.append(dict(base, stop=0, ops=["runsim", "call:step", "call:finalize", "call:report"]))
+        out.append(dict(ibase, ops=["runsim", "call:step", "run", "call:finalize", "call:report"]))
+        # a request made from INSIDE a listener: every request from inside every step event …
+        run3 = ["call:setup", "call:initialize_simulants", "call:step"]
+        for ev in STEP_EVENTS:
+            reqs = ["set:" + s for s in ENGINE_STATES + ["nonexistent"]] + ["call:" + m for m in METHODS]
+            for r in reqs:
+                legal_inside = (r.startswith("set:") and r[4:] in LEGAL_NEXT[ev]) or \
+                               (r.startswith("call:") and FIRST_SET[r[5:]] in LEGAL_NEXT[ev])
+                if legal_inside:
+                    out.append(dict(base, stop=6, ops=run3 + [f"nest:{ev}:{r}", "call:step", "call:step", "run", "call:finalize", "call:report"]))
+            ops = list(run3)
+            for r in reqs:            # … the refused ones change nothing, so they can share one simulation
+                legal_inside = (r.startswith("set:") and r[4:] in LEGAL_NEXT[ev]) or \
+                               (r.startswith("call:") and FIRST_SET[r[5:]] in LEGAL_NEXT[ev])
+                if not legal_inside:
+                    ops += [f"nest:{ev}:{r}", "call:step"]
+            out.append(dict(base, stop=40, ops=ops + ["call:finalize", "call:report"]))
+        for ev, r in (("post_setup", "call:initialize_simulants"), ("post_setup", "set:population_creation"), ("post_setup", "call:step"),
+                      ("simulation_end", "call:report"), ("simulation_end", "set:report"), ("simulation_end", "call:step"),
+                      ("report", "call:report"), ("report", "set:initialization")):
+            out.append(dict(base, ops=[f"nest:{ev}:{r}"] + legal + ["call:report"]))
+        out.append(dict(ibase, stop=5, ops=["call:setup", "nest:collect_metrics:call:step", "run", "nest:time_step:call:setup", "call:step", "call:finalize", "call:report"]))
+        # a component's setup / an initializer / a report listener raises
+        out.append(dict(base, ops=["fail:setup_components", "call:setup", "call:setup", "call:initialize_simulants", "call:step", "set:post_setup", "call:initialize_simulants"]))
+        out.append(dict(base, ops=["call:setup", "fail:create", "call:initialize_simulants", "call:initialize_simulants", "call:step", "call:step", "call:finalize", "call:report"]))
+        out.append(dict(base, ops=legal[:-1] + ["fail:report", "call:report", "call:report", "call:finalize"]))
+        out.append(dict(ibase, ops=["fail:create", "call:setup", "call:setup", "call:initialize_simulants", "call:step", "call:finalize", "call:report"]))
+        # an earlier, differently configured simulation in the same process that was left in the middle of a step
+        prior = {"kind": "ctx", "start": 3, "stop": 9, "step": 2, "pop": 1, "interactive": True,
+                 "ops": ["call:setup", "call:step", "fail:time_step", "call:step"]}
+        out.append(dict(base, prior=prior, ops=legal))
+        out.append(dict(ibase, prior=dict(prior, interactive=False, ops=legal), ops=ilegal))
+        # lifecycles: late phases, the manager inside a real context, names that contain one another, containers
+        out.append({"kind": "lc", "base": "bare", "lcops": [
+            ["phase", "p", ["a", "b"], False, "pos", "list"], ["set", "a", "pos"], ["set", "b", "kw"], ["set", "c", "pos"],
+            ["phase", "q", ["c", "d"], True, "kw", "tuple"], ["set", "d", "pos"], ["set", "c", "pos"], ["set", "d", "pos"], ["set", "c", "pos"],
+            ["phase", "r", ["e"], False, "default", "ndarray"], ["set", "e", "pos"], ["set", "d", "pos"], ["set", "e", "pos"], ["set", "c", "pos"]]})
+        out.append({"kind": "lc", "base": "engine", "lcops": [
+            ["set", "archive", "pos"], ["phase", "post", ["archive", "cleanup"], False, "pos", "list"],
+            ["phase", "setup", ["again"], False, "pos", "list"], ["phase", "more", ["report"], False, "pos", "list"]]
+            + [["set", s, "pos"] for s in ENGINE_STATES[1:] + ["archive", "time_step__prepare", "archive", "cleanup", "archive"]]})
+        out.append({"kind": "lc", "base": "engine", "lcops": [["set", s, "pos"] for s in
+                    ["setup", "setup", "post_setup", "population_creation", "time_step", "time_step__prepare", "time_step", "time_step__prepare",
+                     "time_step__cleanup", "time_step__prepare", "collect_metrics", "time_step__prepare", "time_step", "simulation_end"]]})
+        out.append({"kind": "lc", "base": "bare", "lcops": [
+            ["phase", "fit", ["", "fit", "refit", "fi"], True, "int", "index"],
+            ["set", "fit", "pos"], ["set", "", "pos"], ["set", "fi", "pos"], ["set", "", "pos"], ["set", "fit", "pos"], ["set", "fi", "pos"],
+            ["set", "refit", "pos"], ["set", "fi", "pos"], ["set", "", "pos"], ["set", "refit", "pos"], ["set", "", "pos"]]})
+        out.append({"kind": "lc", "base": "bare", "lcops": [          # a phase named like a state, a state named like a phase
+            ["phase", "x", ["y"], False, "pos", "list"], ["phase", "y", ["x"], True, "lifecycle", "list"], ["phase", "x", ["z"], False, "pos", "list"],
+            ["phase", "initialization", ["w"], False, "pos", "list"], ["phase", "w", ["initialization"], False, "pos", "list"],
+            ["set", "y", "pos"], ["set", "x", "pos"], ["set", "x", "pos"], ["set", "y", "pos"], ["set", "initialization", "pos"]]})
+        out.append({"kind": "lc", "base": "bare",                    # the same names in another order, earlier in the same process
+                    "prior": {"kind": "lc", "base": "bare", "lcops": [["phase", "p", ["c", "b", "a"], True, "pos", "list"],
+                                                                    ["set", "c", "pos"], ["set", "b", "pos"], ["set", "a", "pos"], ["set", "c", "pos"]]},
+                    "lcops": [["phase", "p", ["a", "b", "c"], False, "pos", "list"], ["set", "c", "pos"], ["set", "a", "pos"], ["set", "c", "pos"],
+                              ["set", "b", "pos"], ["set", "a", "pos"], ["set", "c", "pos"], ["set", "a", "pos"]]})
+        out.append({"kind": "lc", "base": "bare", "lcops": [["set", "initialization", "pos"], ["set", "x", "pos"]]})   # no phase at all
         return out
 
     def generate(self, rng: random.Random, i: int, tier: str):
-        if rng.random() < 0.35:
+        case = self._generate(rng)
+        if case["kind"] == "ctx" and rng.random() < 0.35:
+            case["pop"] = rng.choice([0, 0, 1, 5])          # nobody / one simulant / a few (the default is 2)
+        return case
+
+    def _generate(self, rng):
+        r = rng.random()
+        if r < 0.30:
             return self._gen_lc(rng)
+        if r < 0.62:
+            return self._gen_ctx_classic(rng)
+        if r < 0.74:
+            return self._gen_ctx_nested(rng)
+        if r < 0.86:
+            return self._gen_ctx_drives(rng)
+        if r < 0.93:
+            return self._gen_ctx_runsim(rng)
+        c = self._gen_ctx_classic(rng)
+        p = self._gen_ctx_classic(rng)
+        p.update(start=rng.randint(1, 5), pop=rng.choice([0, 1, 3]))
+        p["stop"] = p["start"] + rng.randint(0, 6)
+        p["ops"] = p["ops"][:rng.randint(1, len(p["ops"]))]      # the earlier simulation stops anywhere
+        c["prior"] = p
+        return c
+
+    def _noise(self, rng, interactive, more_fail=False):
+        r = rng.random()
+        if r < 0.12:
+            pool = STEP_EVENTS + ["post_setup", "simulation_end"] + (["report", "create", "setup_components"] if more_fail else [])
+            return "fail:" + rng.choice(pool)
+        if r < 0.46:
+            return "call:" + rng.choice(METHODS)
+        if r < 0.50:
+            return rng.choice(["callp:report", "calld:report"])
+        if r < 0.58:
+            return rng.choice(["run", "runb"])
+        if r < 0.61:
+            return "runsim"
+        if r < 0.68 and interactive:
+            return rng.choice(["xstep:%d" % rng.randint(1, 3), "xstepk:%d" % rng.randint(1, 3), "take:%d" % rng.randint(0, 2),
+                               "takek:%d" % rng.randint(0, 2), "until:%d" % rng.randint(0, 6), "for:%d" % rng.randint(0, 3)])
+        return rng.choice(["set:", "set:", "set:", "setk:"]) + rng.choice(ENGINE_STATES + ["nonexistent"])
+
+    def _gen_ctx_classic(self, rng):
         nsteps = rng.randint(0, 4)
         step = rng.choice([1, 1, 2, 3])
         stop = nsteps * step - (rng.randint(0, step - 1) if nsteps else 0)
-        legal = ["call:setup", "call:initialize_simulants"] + ["call:step"] * nsteps + ["call:finalize", "call:report"]
+        legal = ["call:setup", "call:initialize_simulants"] + ["call:step"] * nsteps + ["call:finalize", rng.choice(["call:report", "call:report", "callp:report", "calld:report"])]
         if rng.random() < 0.4:
-            legal = ["call:setup", "call:initialize_simulants", "run", "call:finalize", "call:report"]
+            legal = ["call:setup", "call:initialize_simulants", rng.choice(["run", "run", "runb"]), "call:finalize", "call:report"]
+        interactive = rng.random() < 0.35
         ops, j = [], 0
         p_noise = rng.choice([0.0, 0.3, 0.5, 0.7])
+        more_fail = rng.random() < 0.3
         while j < len(legal) and len(ops) < 40:
             if rng.random() < p_noise:
-                r = rng.random()
-                if r < 0.12:
-                    ops.append("fail:" + rng.choice(ENGINE_STATES[4:8] + ["post_setup", "simulation_end"]))
-                elif r < 0.5:
-                    ops.append("call:" + rng.choice(METHODS))
-                elif r < 0.6:
-                    ops.append("run")
-                else:
-                    ops.append("set:" + rng.choice(ENGINE_STATES + ["nonexistent"]))
+                ops.append(self._noise(rng, interactive, more_fail))
             else:
                 ops.append(legal[j])
                 j += 1
-        interactive = rng.random() < 0.35
         if interactive:
             # InteractiveContext.setup() also creates the population; a separate initialize_simulants call is then illegal
             ops = [o for k, o in enumerate(ops) if not (o == "call:initialize_simulants" and k == ops.index("call:initialize_simulants")
                                                        and "call:setup" in ops[:k])]
+        case = {"kind": "ctx", "start": 0, "stop": stop, "step": step, "ops": ops, "interactive": interactive}
+        if interactive and rng.random() < 0.25:
+            case["auto_setup"] = True
+            case["ops"] = [o for o in ops if not o.startswith("fail:setup") and not o.startswith("fail:create")]
+        return case
+
+    def _gen_ctx_nested(self, rng):
+        """dedicated mode: requests made from inside listeners, legal and illegal, in both kinds of context"""
+        interactive = rng.random() < 0.4
+        step = rng.choice([1, 2])
+        stop = step * rng.randint(1, 5)
+        ops = ["call:setup"] + ([] if interactive else ["call:initialize_simulants"])
+        for _ in range(rng.randint(1, 4)):
+            ev = rng.choice(STEP_EVENTS + STEP_EVENTS + ["post_setup", "simulation_end", "report"])
+            if rng.random() < 0.45 and ev in LEGAL_NEXT:      # a request that does NOT break the order there
+                cands = ["set:" + s for s in LEGAL_NEXT[ev]] + ["call:" + m for m in METHODS if FIRST_SET[m] in LEGAL_NEXT[ev]]
+                req = rng.choice(cands) if cands else "set:nonexistent"
+            else:
+                req = rng.choice(["set:" + rng.choice(ENGINE_STATES + ["nonexistent"]), "call:" + rng.choice(METHODS)])
+            k = rng.randint(0, len(ops)) if ev == "post_setup" else len(ops)
+            ops.insert(k, f"nest:{ev}:{req}")
+            ops += [rng.choice(["call:step", "call:step", "run", "call:finalize", "call:report"]) for _ in range(rng.randint(1, 3))]
+        ops += ["call:step", "call:finalize", "call:report"]
         return {"kind": "ctx", "start": 0, "stop": stop, "step": step, "ops": ops, "interactive": interactive}
 
+    def _gen_ctx_drives(self, rng):
+        """dedicated mode: the interactive drives (explicit steps, take_steps, run_until, run_for, run) mixed with noise"""
+        step = rng.choice([1, 2, 3])
+        stop = rng.randint(0, 12)
+        auto = rng.random() < 0.4
+        ops = [] if auto else ["call:setup"]
+        for _ in range(rng.randint(2, 8)):
+            if rng.random() < 0.25:
+                ops.append(self._noise(rng, True))
+            else:
+                ops.append(rng.choice(["xstep:%d" % rng.randint(1, 4), "xstepk:%d" % rng.randint(1, 4), "take:%d" % rng.randint(0, 3),
+                                       "takek:%d" % rng.randint(0, 3), "until:%d" % rng.randint(0, 14), "for:%d" % rng.randint(0, 5),
+                                       "call:step", "run", "runb"]))
+        drive = lambda: rng.choice(["xstep:%d" % rng.randint(1, 3), "take:%d" % rng.randint(1, 2), "takek:1", "until:%d" % (stop + rng.randint(1, 9)),   # noqa: E731
+                                    "for:%d" % rng.randint(1, 4), "run", "call:step"])
+        ops += ["call:finalize"] + [drive() for _ in range(rng.choice([0, 1, 2]))]          # drives after the end must be refused
+        ops += [rng.choice(["call:report", "calld:report"])] + [drive() for _ in range(rng.choice([0, 1, 2]))]
+        ops = [o for o in ops if not (auto and (o.startswith("fail:setup") or o.startswith("fail:create")))]
+        return {"kind": "ctx", "start": 0, "stop": stop, "step": step, "ops": ops, "interactive": True, **({"auto_setup": True} if auto else {})}
+
+    def _gen_ctx_runsim(self, rng):
+        interactive = rng.random() < 0.3
+        step = rng.choice([1, 2])
+        stop = rng.choice([0, 0, 1, 2, 3, 5])
+        pre = [self._noise(rng, interactive) for _ in range(rng.choice([0, 0, 1, 2]))]
+        pre = [o for o in pre if not o.startswith("fail:")] + (["fail:" + rng.choice(STEP_EVENTS + ["simulation_end", "report", "create"])] if rng.random() < 0.25 else [])
+        post = [self._noise(rng, interactive) for _ in range(rng.randint(1, 5))]
+        return {"kind": "ctx", "start": 0, "stop": stop, "step": step, "ops": pre + ["runsim"] + post, "interactive": interactive}
+
+    # lifecycles ---------------------------------------------------------------------------------------------
+    NAME_POOLS = {
+        "plain": [f"s{k}" for k in range(12)],
+        "substr": ["a", "ab", "abc", "b", "bc", "", "time_step", "time_step__prepare", "time", "step", "fit", "refit", "fi", "A"],
+        "odd": ["", " ", "a b", "é", "x,y", "initialization ", "Initialization", "0", "None", "a-b", "s;t"],
+    }
+
     def _gen_lc(self, rng):
-        names = [f"s{k}" for k in range(8)] + ["initialization"]
+        mode = rng.choice(["classic", "classic", "inner-loop", "late-phase", "engine", "prior", "containers"])
+        pool = list(self.NAME_POOLS[rng.choice(["plain", "plain", "substr", "substr", "odd"])])
+        rng.shuffle(pool)                                   # state order is never the alphabetical / numeric one
+        base = "engine" if mode == "engine" else "bare"
+        forms = ["pos", "pos", "kw", "default", "int", "npbool", "lifecycle"] if mode == "containers" or rng.random() < 0.3 else ["pos"]
+        conts = ["list", "tuple", "ndarray", "index"] if mode == "containers" or rng.random() < 0.3 else ["list"]
         phases, used = [], 0
         for p in range(rng.randint(1, 4)):
-            k = rng.randint(1, 3)
-            if rng.random() < 0.08:
-                states = []                                         # empty phase (rejected: nothing to enter)
-            elif rng.random() < 0.15:
-                states = [rng.choice(names) for _ in range(k)]      # may duplicate (rejected)
+            k = rng.randint(3, 5) if (mode == "inner-loop" and p == 0) else rng.randint(1, 3)
+            if rng.random() < 0.06:
+                states = []                                         # empty phase (nothing to enter)
+            elif rng.random() < 0.12:
+                states = [rng.choice(pool + ["initialization"] + (ENGINE_STATES if base == "engine" else [])) for _ in range(k)]   # may duplicate
             else:
-                states = [f"s{used + q}" for q in range(k)]
+                states = pool[used:used + k]
                 used += k
-            pname = f"p{p}" if rng.random() > 0.1 else "p0"
-            phases.append([pname, states, rng.random() < 0.5])
-        allst = ["initialization"] + [s for _, ss, _ in phases for s in ss]
-        reqs, cur = [], 0
-        for _ in range(rng.randint(3, 25)):
+            if not states and rng.random() < 0.5:
+                states = []
             r = rng.random()
-            if r < 0.55 and cur + 1 < len(allst):
-                reqs.append(allst[cur + 1]); cur += 1          # noqa: E702  (may or may not really be legal)
-            elif r < 0.85:
-                reqs.append(rng.choice(allst))
-            else:
-                reqs.append(rng.choice(["zzz", "setup"]))
-        return {"kind": "lc", "phases": phases, "reqs": reqs}
+            pname = f"p{p}" if r > 0.2 else "p0" if r > 0.1 else rng.choice(pool + ["initialization", "setup"])
+            loop = True if (mode == "inner-loop" and p == 0) else rng.random() < 0.5
+            phases.append(["phase", pname, states, loop, rng.choice(forms), rng.choice(conts)])
+        early, late = phases, []
+        if mode in ("late-phase", "engine") or rng.random() < 0.25:
+            cut = rng.randint(0, len(phases) - 1) if mode != "late-phase" else max(1, len(phases) - 1)
+            early, late = phases[:cut], phases[cut:]
+        order = ["initialization"] + ([s for _, ss, _ in ENGINE_PHASES for s in ss] if base == "engine" else [])
+        walk = order + [s for ph in phases for s in ph[2]]
+        ops, cur = list(early), 0
+
+        def reqs(n, p_next):
+            nonlocal cur
+            out = []
+            for _ in range(n):
+                r = rng.random()
+                if r < p_next and cur + 1 < len(walk):
+                    out.append(walk[cur + 1]); cur += 1          # noqa: E702  (may or may not really be legal)
+                elif r < p_next + 0.3:
+                    out.append(rng.choice(walk))
+                elif r < p_next + 0.38 and cur < len(walk):
+                    out.append(walk[cur])                        # the current state itself
+                else:
+                    out.append(rng.choice(["zzz", "setup", "initialization"]))
+            return [["set", x, "kw" if rng.random() < 0.15 else "pos"] for x in out]
+
+        if mode == "inner-loop":
+            first = phases[0][2]
+            ops += reqs(len(order) - 1 + rng.randint(2, max(2, len(first) - 1)), 1.0)      # walk to an inner state of the loop
+            ops += [["set", first[0], "pos"]] if first else []                              # … and ask for its first state
+        ops += reqs(rng.randint(2, 14) + (len(order) if base == "engine" and rng.random() < 0.7 else 0), rng.choice([0.55, 0.8, 1.0]))
+        for ph in late:
+            ops.append(ph)
+            ops += reqs(rng.randint(1, 8), rng.choice([0.55, 0.9]))
+        case = {"kind": "lc", "base": base, "lcops": ops}
+        if mode == "prior":
+            other = list(pool)
+            rng.shuffle(other)
+            pph = [["phase", f"p{p}", other[3 * p:3 * p + rng.randint(1, 3)], rng.random() < 0.5, "pos", "list"] for p in range(rng.randint(1, 3))]
+            pwalk = [s for ph in pph for s in ph[2]]
+            case["prior"] = {"kind": "lc", "base": "bare",
+                             "lcops": pph + [["set", s, "pos"] for s in pwalk[:rng.randint(0, len(pwalk))]] + [["set", rng.choice(pool), "pos"] for _ in range(3)]}
+        return case
 
     def shrink(self, case):
-        key = "ops" if case["kind"] == "ctx" else "reqs"
+        # (the earlier simulation / lifecycle of a case is never shrunk away: the shrinker runs in a process that has
+        # already seen other cases, so a failure that needs process history would survive the removal there and the
+        # replay, which starts in a fresh process, would not reproduce it)
+        if case["kind"] == "lc" and "lcops" not in case:
+            for key in ("reqs", "phases"):
+                xs = case[key]
+                for i in range(len(xs) - 1, -1, -1):
+                    yield dict(case, **{key: xs[:i] + xs[i + 1:]})
+            return
+        key = "ops" if case["kind"] == "ctx" else "lcops"
         xs = case[key]
         for i in range(len(xs) - 1, -1, -1):
             yield dict(case, **{key: xs[:i] + xs[i + 1:]})
         if case["kind"] == "lc":
-            for i in range(len(case["phases"]) - 1, -1, -1):
-                yield dict(case, phases=case["phases"][:i] + case["phases"][i + 1:])
+            for i, op in enumerate(xs):
+                if op[0] == "phase" and (op[4] != "pos" or op[5] != "list"):
+                    yield dict(case, lcops=xs[:i] + [op[:4] + ["pos", "list"]] + xs[i + 1:])
 
     # ------------------------------------------------------------------ implementation
     def run_impl(self, case):
         impl.load()
-        if case["kind"] == "lc":
-            from vivarium.framework.lifecycle import LifeCycleManager
-            m = LifeCycleManager()
-            out = {"phases": [], "reqs": []}
-            for name, states, loop in case["phases"]:
-                try:
-                    m.add_phase(name, list(states), loop=loop)
-                    out["phases"].append("ok")
-                except Exception as e:  # noqa: BLE001
-                    out["phases"].append("err:" + type(e).__name__)
-            for r in case["reqs"]:
-                try:
-                    m.set_state(r)
-                    out["reqs"].append(["ok", m.current_state])
-                except Exception as e:  # noqa: BLE001
-                    out["reqs"].append(["err:" + type(e).__name__, m.current_state])
-            return out
-        log = []
-        fail = {"on": None}
-        sim = _mk_context(case, log, fail)
-        res = []
-        for op in case["ops"]:
-            before = len(log)
+        keep = []          # earlier simulations / lifecycles stay alive while the case runs
+        if case.get("prior"):
             try:
-                if op.startswith("fail:"):
-                    fail["on"] = op[5:]        # the probe's listener of that event raises at its next emission
-                elif op == "run":
-                    sim.run(with_logging=False) if case.get("interactive") else sim.run()
-                elif op.startswith("call:"):
-                    getattr(sim, op[5:])(**({"print_results": False} if op == "call:report" else {}))
-                else:
-                    sim._lifecycle.set_state(op[4:])
-                outcome = "ok"
-            except Exception as e:  # noqa: BLE001
-                outcome = "err:" + type(e).__name__
-            clock = sim._clock._clock_time
-            res.append([outcome, sim._lifecycle.current_state, None if clock is None else int(clock), log[before:]])
-        return {"ops": res}
+                (_run_lc if case["prior"]["kind"] == "lc" else _run_ctx)(case["prior"], keep)
+            except CaseTimeout:
+                raise
+            except Exception:  # noqa: BLE001  (the earlier simulation may end any way it likes)
+                pass
+        return _run_lc(case, keep) if case["kind"] == "lc" else _run_ctx(case, keep)
 
     # ------------------------------------------------------------------ model
+    @staticmethod
+    def _tokens(case):
+        """state / phase names -> protocol tokens (the model only compares names for equality)"""
+        table = {}
+
+        def tok(name):
+            if name not in table:
+                table[name] = name if (SAFE.match(name) and not name.startswith("~")) else f"~{len(table)}"
+            return table[name]
+        return tok
+
     def model_lines(self, case, obs):
         if case["kind"] == "lc":
-            L = ["lc new"]
-            for name, states, loop in case["phases"]:
-                L.append(f"lc phase {name} {','.join(states) if states else '-'} {1 if loop else 0}")
-            L += [f"lc set {r}" for r in case["reqs"]]
+            tok = self._tokens(case)
+            L = ["lc engine" if case.get("base") == "engine" else "lc new"]
+            for op in _lc_ops(case):
+                if op[0] == "phase":
+                    L.append(f"lc phase {tok(op[1])} {','.join(tok(s) for s in op[2]) if len(op[2]) else '-'} {1 if op[3] else 0}")
+                else:
+                    L.append(f"lc set {tok(op[1])}")
             return L
         L = [f"ctx new {case['start']} {case['step']} {case['stop']}"]
+        if case.get("interactive"):
+            L.append("ctx kind interactive")
+        if case.get("auto_setup"):
+            L.append("ctx isetup")
         for op in case["ops"]:
-            if op == "call:setup" and case.get("interactive"):
-                L.append("ctx isetup")
-                continue
-            L.append("ctx run" if op == "run" else ("ctx call " + op[5:] if op.startswith("call:") else
-                                                     "ctx fail " + op[5:] if op.startswith("fail:") else "ctx set " + op[4:]))
+            k = _kind(op)
+            arg = op.split(":", 1)[1] if ":" in op else ""
+            if k in ("call", "callp", "calld"):
+                L.append("ctx isetup" if (arg == "setup" and case.get("interactive")) else "ctx call " + arg)
+            elif k in ("run", "runb"):
+                L.append("ctx run")
+            elif k == "runsim":
+                L.append("ctx runsim")
+            elif k in ("set", "setk"):
+                L.append("ctx set " + arg)
+            elif k == "fail":
+                L.append("ctx fail " + arg)
+            elif k == "nest":
+                _, ev, rk, ra = op.split(":", 3)
+                L.append(f"ctx nest {ev} {rk} {ra}")
+            elif k in ("xstep", "xstepk"):
+                L.append("ctx xstep " + arg)
+            elif k in ("take", "takek"):
+                L.append("ctx take " + arg)
+            elif k == "until":
+                L.append("ctx until " + arg)
+            elif k == "for":
+                L.append("ctx for " + arg)
+            else:
+                L.append("unknown-op")
         return L
 
     def compare(self, case, obs, replies):
         dis = []
         if case["kind"] == "lc":
-            rp = replies[1:1 + len(case["phases"])]
-            for i, (a, b) in enumerate(zip(obs["phases"], rp)):
-                if (a == "ok") != (b == "ok"):
-                    dis.append(f"add_phase #{i} {case['phases'][i]}: impl {a}, model {b}")
-            rr = replies[1 + len(case["phases"]):]
-            for i, ((o, st), b) in enumerate(zip(obs["reqs"], rr)):
+            tok = self._tokens(case)
+            ops = _lc_ops(case)
+            for op in ops:                                    # same token table as model_lines (same visiting order)
+                tok(op[1])
+                if op[0] == "phase":
+                    [tok(s) for s in op[2]]
+            cur = "initialization"
+            for i, (op, (o, st), b) in enumerate(zip(ops, obs["lc"], replies[1:])):
                 t = b.split()
-                mo, mst = t[0], t[-1]
-                if (o == "ok") != (mo == "ok") or st != mst:
-                    dis.append(f"set_state #{i} {case['reqs'][i]}: impl {o}/{st}, model {b}")
+                if op[0] == "phase":
+                    if (o == "ok") != (t[0] == "ok") or st != cur:
+                        dis.append(f"add_phase #{i} {op}: impl {o} (state {st}), model {b}")
+                else:
+                    mo, mst = t[0], t[-1]
+                    if (o == "ok") != (mo == "ok") or tok(st) != mst:
+                        dis.append(f"set_state #{i} {op[1]!r}: impl {o}/{st!r}, model {b}")
+                cur = st
             return dis
-        for i, ((o, st, clock, ev), b) in enumerate(zip(obs["ops"], replies[1:])):
+        head = 1 + (1 if case.get("interactive") else 0)
+        seq = list(zip(case["ops"], obs["ops"]))
+        if case.get("auto_setup"):
+            seq = [("<constructor>", obs["auto"])] + seq
+        for i, ((op, (o, st, clock, ev, _seen, _trail)), b) in enumerate(zip(seq, replies[head:])):
             t = b.split()
+            if len(t) < 4:
+                dis.append(f"op #{i} {op}: model reply {b!r}")
+                continue
             mo, mst, mclock, mev = t[0], t[1], int(t[2]), ([] if t[3] == "-" else t[3].split(","))
             if (o == "ok") != (mo == "ok") or st != mst or ev != mev or (clock is not None and clock != mclock):
-                dis.append(f"op #{i} {case['ops'][i]}: impl {o} {st} clock={clock} {ev}; model {b}")
+                dis.append(f"op #{i} {op}: impl {o} {st} clock={clock} {ev}; model {b}")
         return dis
 
     # ------------------------------------------------------------------ oracle (the property itself)
-    def oracle(self, case, obs):
+    @staticmethod
+    def _lc_oracle(case, obs):
+        """the declared order, derived from the CASE alone (never from what the implementation accepted)"""
         fails = []
-        if case["kind"] == "lc":
-            # declared order from the accepted phases
-            phases = [p for p, r in zip(case["phases"], obs["phases"]) if r == "ok"]
-            order = ["initialization"] + [s for _, ss, _ in phases for s in ss]
-            nxt = {a: {b} for a, b in zip(order, order[1:])}
+        phases = [["initialization", ["initialization"], False]] + ([list(p) for p in ENGINE_PHASES] if case.get("base") == "engine" else [])
+        cur = "initialization"
+
+        def successors(s):
+            order = [x for _, ss, _ in phases for x in ss]
+            out = set()
+            if s in order and order.index(s) + 1 < len(order):
+                out.add(order[order.index(s) + 1])
             for _, ss, loop in phases:
-                if loop and ss:
-                    nxt.setdefault(ss[-1], set()).add(ss[0])
-            cur = "initialization"
-            for i, (r, (o, st)) in enumerate(zip(case["reqs"], obs["reqs"])):
-                legal = r in nxt.get(cur, set())
+                if loop and len(ss) and ss[-1] == s:
+                    out.add(ss[0])
+            return out
+
+        for i, (op, (o, st)) in enumerate(zip(_lc_ops(case), obs["lc"])):
+            if op[0] == "phase":
+                _, name, states, loop = op[:4]
+                states = list(states)
+                existing = {x for _, ss, _ in phases for x in ss}
+                unique = name not in {p[0] for p in phases} and len(set(states)) == len(states) and not (set(states) & existing)
+                if not states:
+                    want = (o == "ok") and unique        # a phase without states cannot be entered: either answer, but never a duplicate name
+                    if o == "ok" and not unique:
+                        fails.append({"sig": "lc-phase-acceptance", "msg": f"op #{i} add_phase {op[1:4]}: accepted although the phase name exists"})
+                else:
+                    want = unique
+                    if (o == "ok") != want:
+                        fails.append({"sig": "lc-phase-acceptance", "msg": f"op #{i} add_phase {op[1:4]}: {o}, names unique = {unique} "
+                                      f"(phases so far {[p[0] for p in phases]}, states so far {sorted(existing)})"})
+                if st != cur:
+                    fails.append({"sig": "lc-phase-moved-state", "msg": f"op #{i} add_phase {op[1:4]}: state went from {cur!r} to {st!r}"})
+                if want:
+                    phases.append([name, states, bool(loop)])
+            else:
+                r = op[1]
+                legal = r in successors(cur)
                 if (o == "ok") != legal:
                     fails.append({"sig": "lc-accepts-illegal" if o == "ok" else "lc-refuses-legal",
-                                  "msg": f"request #{i} {cur}->{r}: outcome {o}, legal={legal}"})
-                want = r if o == "ok" else cur
-                if st != want:
-                    fails.append({"sig": "lc-state-after", "msg": f"request #{i} {cur}->{r} ({o}): state is {st}, expected {want}"})
-                cur = st
-            # rejected phase definitions: duplicate names
-            return fails
+                                  "msg": f"request #{i} {cur!r}->{r!r}: outcome {o}, legal={legal}"})
+                want_st = r if o == "ok" else cur
+                if st != want_st:
+                    fails.append({"sig": "lc-state-after", "msg": f"request #{i} {cur!r}->{r!r} ({o}): state is {st!r}, expected {want_st!r}"})
+            cur = st
+        return fails
+
+    def oracle(self, case, obs):
+        if case["kind"] == "lc":
+            return self._lc_oracle(case, obs)
+        fails = []
+        inter = bool(case.get("interactive"))
         cur = "initialization"
-        for i, (op, (o, st, clock, ev)) in enumerate(zip(case["ops"], obs["ops"])):
-            # every state visited during the op must follow the legal order; listeners only run in their own state
-            visited = [e[5:] for e in ev if e.startswith("emit:")]
-            if op.startswith("fail:"):
+        prev_clock = None
+        armed_fail = None
+        seq = list(zip(case["ops"], obs["ops"]))
+        if case.get("auto_setup"):
+            seq = [("call:setup", obs["auto"])] + seq
+        nest = None          # (event, request) armed
+        for i, (op, (o, st, clock, ev, seen, trail)) in enumerate(seq):
+            k = _kind(op)
+            if seen is not None and seen != st:
+                fails.append({"sig": "state-handles-disagree", "msg": f"op #{i} {op}: the manager says {st}, the component's current_state() handle says {seen}"})
+            # the states the listeners saw, then the state the request left: each reachable from the one before along the legal order
+            s0 = cur
+            for t in list(trail) + [st]:
+                if t not in REACH.get(s0, ()):
+                    fails.append({"sig": "state-order", "msg": f"op #{i} {op} from {cur}: states seen by listeners {trail}, then {st}: {s0} -> {t} is not along the legal order"})
+                    break
+                s0 = t
+            for e in ev:
+                if "@" in e:
+                    fails.append({"sig": "listener-in-wrong-state", "msg": f"op #{i} {op}: listener call {e} (event@state seen)"})
+                    break
+            ev = [e.split("@")[0] for e in ev]
+            if k in ("fail", "nest"):
                 if o != "ok" or st != cur or ev:
                     fails.append({"sig": "harness", "msg": f"op #{i} {op}: {o} {st} {ev}"})
+                if k == "fail":
+                    armed_fail = op[5:]
+                else:
+                    _, nev, nreq = op.split(":", 2)
+                    nest = (nev, nreq)
                 continue
-            if op.startswith("set:"):
-                tgt = op[4:]
+            if k in ("set", "setk"):
+                tgt = op.split(":", 1)[1]
                 legal = tgt in LEGAL_NEXT.get(cur, [])
                 if (o == "ok") != legal:
                     fails.append({"sig": "direct-request-outcome", "msg": f"op #{i} {op} from {cur}: {o}, legal={legal}"})
@@ -322,14 +849,21 @@ class C06(Prop):
                     fails.append({"sig": "direct-request-ran-listener", "msg": f"op #{i} {op}: listeners ran {ev}"})
                 if st != (tgt if o == "ok" else cur):
                     fails.append({"sig": "direct-request-state", "msg": f"op #{i} {op} from {cur} ({o}): state {st}"})
-            else:
-                # emitted events must form a legal path from cur ending at st (through setup for setup())
-                if case.get("interactive") and op == "call:setup" and o == "ok" and st != "population_creation":
-                    fails.append({"sig": "interactive-setup-state", "msg": f"op #{i} setup() on an InteractiveContext ended in {st}"})
-                path_ok, s = True, cur
-                seq = list(visited)
-                for v in seq:
-                    # advance s along the unique legal path until v (at most 2 silent states: setup, population_creation)
+                if clock != prev_clock:
+                    fails.append({"sig": "direct-request-moved-clock", "msg": f"op #{i} {op}: clock {prev_clock} -> {clock}"})
+                cur, prev_clock = st, clock
+                continue
+            # ---- a context method / drive -------------------------------------------------------------------
+            m = _method_of(op)
+            if inter and m == "setup" and o == "ok" and st != "population_creation":
+                fails.append({"sig": "interactive-setup-state", "msg": f"op #{i} setup() on an InteractiveContext ended in {st}"})
+            # walk the log: every listener runs in its own state, reached along the legal order; requests from inside
+            # a listener are judged on the spot
+            path_ok, s = True, cur
+            nested_accepted = nested_seen = False
+            for pos, entry in enumerate(ev):
+                if entry.startswith("emit:"):
+                    v = entry[5:]
                     hops = 0
                     while s != v and hops < 3:
                         nx = LEGAL_NEXT.get(s, [])
@@ -337,52 +871,167 @@ class C06(Prop):
                             s = v
                             break
                         if len(nx) >= 1 and nx[0] in ("setup", "population_creation"):
-                            s = nx[0]
+                            s = nx[0]          # silent states (no event of their own)
                             hops += 1
                             continue
-                        path_ok = False
                         break
                     if s != v:
                         path_ok = False
-                    if not path_ok:
                         break
-                if not path_ok:
-                    fails.append({"sig": "listener-out-of-order", "msg": f"op #{i} {op} from {cur}: events {ev}"})
-                refused = (op.startswith("call:") and self._first_set_illegal(op[5:], cur)) or \
-                          (op == "run" and self._first_set_illegal("step", cur))
-                if o != "ok" and refused and ev:
-                    fails.append({"sig": "refused-call-ran-listener", "msg": f"op #{i} {op} from {cur}: refused but ran {ev}"})
-                if o != "ok" and op.startswith("call:") and self._first_set_illegal(op[5:], cur) and (st != cur or ev):
-                    fails.append({"sig": "refused-call-changed-state", "msg": f"op #{i} {op} from {cur}: {o}, state {st}, events {ev}"})
-                if o == "ok" and op.startswith("call:") and self._first_set_illegal(op[5:], cur):
+                elif entry.startswith("nested:"):
+                    _, res, nst = entry.split(":", 2)
+                    nested_seen = True
+                    nev, nreq = nest if nest else (None, "set:?")
+                    nest = None
+                    if nreq.startswith("set:"):
+                        first, rest_state = nreq[4:], nreq[4:]
+                    else:
+                        first, rest_state = FIRST_SET[nreq[5:]], REST[nreq[5:]]
+                    # the state in which the request was made: the event being delivered (accepted nested calls ran their
+                    # own listeners in between, already walked)
+                    made_in = nev
+                    legal = first in LEGAL_NEXT.get(made_in, [])
+                    if res == "ok":
+                        nested_accepted = True
+                        if not legal:
+                            fails.append({"sig": "nested-illegal-accepted", "msg": f"op #{i} {op}: request {nreq} from inside a {nev} listener was accepted"})
+                        if nst != rest_state:
+                            fails.append({"sig": "nested-state-after", "msg": f"op #{i} {op}: accepted nested {nreq} left state {nst}, expected {rest_state}"})
+                        s = nst
+                    else:
+                        if legal and armed_fail is None:   # (armed_fail: a listener of the nested request may have raised)
+                            fails.append({"sig": "nested-legal-refused", "msg": f"op #{i} {op}: request {nreq} from inside a {nev} listener was refused"})
+                        if not legal:
+                            if nst != made_in:
+                                fails.append({"sig": "nested-refused-changed-state", "msg": f"op #{i} {op}: refused nested {nreq} in {made_in} left state {nst}"})
+                            if pos == 0 or ev[pos - 1] != "emit:" + str(nev):
+                                fails.append({"sig": "nested-refused-ran-listener", "msg": f"op #{i} {op}: refused nested {nreq}: log {ev}"})
+                elif entry in ("create", "setup_components"):
+                    want_state = "population_creation" if entry == "create" else "setup"
+                    hops = 0
+                    while s != want_state and hops < 3 and LEGAL_NEXT.get(s):
+                        s = LEGAL_NEXT[s][0]
+                        hops += 1
+                    if s != want_state:
+                        path_ok = False
+                        break
+            if not path_ok:
+                fails.append({"sig": "listener-out-of-order", "msg": f"op #{i} {op} from {cur}: events {ev}"})
+            # what the request asks for first, and whether it needs to step at all
+            if m is not None:
+                first = FIRST_SET[m]
+            elif k == "runsim":
+                first = "setup"
+            elif k in ("xstep", "xstepk"):
+                first = "time_step__prepare"
+            elif k in ("take", "takek"):
+                first = "time_step__prepare" if int(op.split(":")[1]) > 0 else None
+            elif k in ("run", "runb", "until", "for"):
+                # does the loop have anything to do? (the clock is not the subject of C06: its value is taken as observed)
+                if prev_clock is None:
+                    first = None
+                else:
+                    bound = case["stop"] if k in ("run", "runb") else int(op.split(":")[1]) + (prev_clock if k == "for" else 0)
+                    first = "time_step__prepare" if prev_clock < bound else None
+            else:
+                first = None
+            breaks = first is not None and first not in LEGAL_NEXT.get(cur, [])
+            fail_pending = armed_fail is not None      # a listener may raise during this request (also inside a nested one)
+            if armed_fail is not None and o == "err:ListenerFailure":
+                armed_fail = None
+            if breaks:
+                if o == "ok":
                     fails.append({"sig": "illegal-call-accepted", "msg": f"op #{i} {op} accepted from {cur}"})
-            cur = st
+                else:
+                    if ev:
+                        fails.append({"sig": "refused-call-ran-listener", "msg": f"op #{i} {op} from {cur}: refused but ran {ev}"})
+                    if st != cur:
+                        fails.append({"sig": "refused-call-changed-state", "msg": f"op #{i} {op} from {cur}: {o}, state {st}, events {ev}"})
+                    if clock != prev_clock:
+                        fails.append({"sig": "refused-call-moved-clock", "msg": f"op #{i} {op} from {cur}: {o}, clock {prev_clock} -> {clock}"})
+            elif first is not None and o in ("err:InvalidTransitionError", "err:LifeCycleError") and not nested_accepted:
+                # the lifecycle refused although the order allowed the request
+                zero_step_runsim = k == "runsim" and (inter or case["stop"] <= case["start"])
+                if not zero_step_runsim:
+                    fails.append({"sig": "legal-call-refused", "msg": f"op #{i} {op} from {cur}: {o}, state {st}, events {ev}"})
+            if k == "runsim" and cur == "initialization" and not fail_pending and not nested_accepted:
+                if inter or case["stop"] <= case["start"]:
+                    # the wrapper's own initialize_simulants (interactive) / finalize (nothing to do) breaks the order
+                    if o == "ok" or st != "population_creation":
+                        fails.append({"sig": "runsim-outcome", "msg": f"op #{i} run_simulation(): {o} {st}; expected a refusal resting in population_creation"})
+                elif o != "ok" or st != "report":
+                    fails.append({"sig": "runsim-outcome", "msg": f"op #{i} run_simulation(): {o} {st}; expected to reach report"})
+            if o == "ok" and not breaks and not nested_accepted and not (fail_pending and nested_seen):
+                # an accepted request passes through exactly its own states and rests where it should
+                if m is not None:
+                    want_st = "population_creation" if (inter and m == "setup") else REST[m]
+                    want_ev = EVENTS_OF[m] + (["create"] if (inter and m == "setup") else [])
+                elif k in ("xstep", "xstepk"):
+                    want_st, want_ev = "collect_metrics", EVENTS_OF["step"]
+                elif k == "runsim":
+                    want_st, want_ev = "report", None
+                elif k in STEPPING:
+                    n_it = len([e for e in ev if e == "emit:collect_metrics"])
+                    if k in ("take", "takek"):
+                        n_it = int(op.split(":")[1])
+                    want_st = "collect_metrics" if (first is not None or n_it) else cur
+                    want_ev = EVENTS_OF["step"] * n_it
+                    if first is not None and n_it == 0:
+                        fails.append({"sig": "accepted-call-events", "msg": f"op #{i} {op} from {cur}: had to step, ran {ev}"})
+                else:
+                    want_st, want_ev = st, None
+                plain = [e for e in ev if not e.startswith("nested:")]
+                if st != want_st:
+                    fails.append({"sig": "call-end-state", "msg": f"op #{i} {op} from {cur}: accepted, rests in {st}, expected {want_st}"})
+                if want_ev is not None and plain != want_ev:
+                    fails.append({"sig": "accepted-call-events", "msg": f"op #{i} {op} from {cur}: ran {ev}, expected {want_ev}"})
+            cur, prev_clock = st, clock
         return fails
 
-    FIRST_SET = {"setup": "setup", "initialize_simulants": "population_creation", "step": "time_step__prepare",
-                 "finalize": "simulation_end", "report": "report"}
-
     def _first_set_illegal(self, method, cur):
-        return self.FIRST_SET[method] not in LEGAL_NEXT.get(cur, [])
+        return FIRST_SET[method] not in LEGAL_NEXT.get(cur, [])
+
+    FIRST_SET = FIRST_SET
 
     def nontrivial(self, case, obs):
-        outs = [o[0] for o in (obs["ops"] if case["kind"] == "ctx" else obs["reqs"])]
+        outs = [o[0] for o in (obs["ops"] if case["kind"] == "ctx" else obs["lc"])]
         return any(o == "ok" for o in outs) and any(o != "ok" for o in outs)
 
     def tags(self, case, obs):
-        t = [case["kind"]]
+        t = [case["kind"]] + (["process-history"] if case.get("prior") else [])
         if case["kind"] == "ctx":
             t.append("interactive-context" if case.get("interactive") else "simulation-context")
-            for op, (o, st, _, ev) in zip(case["ops"], obs["ops"]):
-                t.append(("ok:" if o == "ok" else "refused:") + op.split(":")[0])
-                if st in ENGINE_STATES[4:7] and op != "fail":
+            t.append("pop:%s" % case.get("pop", 2))
+            t += ["constructor-setup"] * bool(case.get("auto_setup"))
+            for op, (o, st, _, ev, _s, _t) in zip(case["ops"], obs["ops"]):
+                k = _kind(op)
+                t.append(("ok:" if o == "ok" else "refused:") + k)
+                if st in ENGINE_STATES[4:7] and k != "fail":
                     t.append("stuck-in:" + st)
                 t.append("rest:" + st)
+                for e in ev:
+                    if e.startswith("nested:"):
+                        t.append("nested-" + e.split(":")[1])
+                if k == "fail":
+                    t.append("fail-on:" + op[5:])
         else:
-            t += ["phase-" + r.split(":")[0] for r in obs["phases"]]
-            t += ["req-" + o.split(":")[0] for o, _ in obs["reqs"]]
-            t += ["loop-phase"] * any(l for _, _, l in case["phases"])
+            ops = _lc_ops(case)
+            t.append("lc-base:" + case.get("base", "bare"))
+            seen_set = False
+            for op, (o, _) in zip(ops, obs["lc"]):
+                if op[0] == "phase":
+                    t.append("phase-" + o.split(":")[0])
+                    t.append("phase-form:" + op[4])
+                    t.append("phase-container:" + op[5])
+                    t += ["late-phase"] * seen_set + ["loop-phase"] * bool(op[3])
+                    t += ["unsafe-name"] * any(not SAFE.match(s) for s in op[2])
+                else:
+                    seen_set = True
+                    t.append("req-" + o.split(":")[0])
         return t
+
+    def sample_view(self, case, obs):
+        return {"case": case, "observed_head": (obs.get("ops") or obs.get("lc"))[:8]}
 
 
 def LEGAL_NEXT_AFTER(prefix):
